@@ -12,6 +12,9 @@ A(a_id, i, s, b, prev_id) B(b_id, n, t, a_id, a2_id) L(l_id, w, a_id, b_id); R1 
 Not checked (the property text does not clearly demand it; see the notes of the items): which instance `select any`
 returns and the order of `for each` are taken from C09/C02 (creation order / relate order); phrases on non-reflexive
 associations; `/` and `%` live in their own item (clauses integer-division, modulo-negative: DESIGN section 6, K3).
+Item if-elif-ladders: ladders with 2-3 elif clauses under every truth assignment of their guards (exactly the first clause whose
+guard holds runs, else only when none holds), each clause with an observable body.
+The model also holds callable elements with observable invocations (_c04_gen.HELPERS); C04's programs never invoke them (C08 does).
 """
 import itertools
 
@@ -189,7 +192,7 @@ def _build_control(budget):
     return build
 
 
-@item('control-flow', stands_in_for=STANDS, shards=6, weight=3,
+@item('control-flow', stands_in_for=STANDS, shards=5, weight=3,
       bound='prelude + every nesting of if/elif/else, counted while, for each over the 3-instance set, break, continue, return, '
             'control stop around 3 marker statements (x=x+1; a1.i=a1.i+x; create B) and 3 guards (true,false,x<2), up to 3 statements '
             'in total (exhaustive: 20475 programs); thorough adds samples of the 4-statement space (about 10^6 programs); population rich')
@@ -219,8 +222,33 @@ def control_flow(ctx):
         ctx.note('3-statement space enumerated completely; %d samples of the 4-statement space in shard 0' % extra)
 
 
+# ------------------------------------------------------------------------------------------------- if / elif / else ladders
+@item('if-elif-ladders', stands_in_for=[STANDS[0], 'bridgepoint.interpret.ActionWalker.accept_IfNode', 'bridgepoint.interpret.ActionWalker.accept_ElIfListNode',
+                                        'bridgepoint.interpret.ActionWalker.accept_ElIfNode', 'bridgepoint.interpret.ActionWalker.accept_ElseNode'],
+      shards=2, weight=1,
+      bound='if / elif / else ladders with 2 and 3 elif clauses, with and without else: every truth assignment of the 3-4 guards (48 shapes) x '
+            '6 body styles (every clause leaves its own mark m=m*10+clause, plus: attribute write, create, create+relate over R1/R4, assignment '
+            'that makes all later guards hold, break/continue/return/control stop) x 6 contexts (top level, inside while, inside for each, in '
+            'the then / else / elif block of an enclosing if) with 8 guard styles (literals, overlapping comparisons of one variable, boolean '
+            'variables and their negation, attribute reads, empty/not_empty, 3 mixtures) rotating in quick (1728 programs) and crossed in '
+            'thorough (13824); plus classification loops (for each over 3 instances / counted while) whose guards compare the loop value with '
+            'constants so that the truth assignment changes per iteration: all tuples of 4 forms for 2 elifs, a quarter for 3 elifs in quick '
+            '(512 programs), all tuples of 7 forms in thorough (10976); population rich; exhaustive')
+def if_elif_ladders(ctx):
+    if ctx.shard == 0:
+        ctx.note(NOTE)
+    for n, (desc, tree) in enumerate(G.ladder_programs(ctx.quick)):
+        if n % ctx.nshards != ctx.shard:
+            continue
+        if ctx.expired():
+            ctx.exhausted = False
+            return
+        run_case(ctx, tree, 'rich', 'if-elif-ladders')
+    ctx.exhausted = True
+
+
 # ------------------------------------------------------------------------------------------------- sampled programs
-@item('programs-sampled', stands_in_for=STANDS, shards=4, weight=3,
+@item('programs-sampled', stands_in_for=STANDS, shards=3, weight=3,
       bound='random type-correct programs: random prelude + up to 3 statements / expression depth 2 (quick) or up to 6 statements / '
             'expression depth 3 (thorough), arbitrary nesting of if/elif/else, while, for each, where clauses, chains up to 2 (quick) / 3 steps; '
             'each on the populations rich, sparse, empty and one random population (0-3 A, 0-3 B, 0-2 L, random links within the multiplicities); '
